@@ -8,7 +8,7 @@ use std::rc::Rc;
 
 pub static PROP: Prop = Prop {
     id: "C13",
-    rule: "Pipelines = source x adaptor chain x consumer, run 25 per script. Sources: list, tuple, exclusive / inclusive / descending range, ASCII string, map, and a generator that prints `p<i>` on every pull, each of length 0..5 (exhaustive). Adaptors (numeric parameters 0..3): each, keep, skip, take, take_while, step, chain, zip, enumerate, chunks, windows, flatten, intersperse, cycle (always under a later take), reversed, iter. Consumers: to_list, to_tuple, count, sum, product, min, max, min_max, fold, find, position, any, all, last, consume, a for loop, 3-target unpacking, and next/next_back call sequences. All chains of depth <= 2 are enumerated (quick: x every source x a consumer rotated per pipeline; thorough: x every consumer, plus depth 3 over a reduced source set); deeper chains are proptest-sampled. Oracle: (1) the printed result equals a sequence model written in plain Rust on vectors from the core-library docs (errors for chunks/windows/step 0 and reversed on a non-bidirectional chain); (2) laziness: nothing is pulled before the pipeline is consumed, pulls are p0, p1, ... each once and in order, and the number of pulls is at most the model's minimal demand plus the declared look-ahead of the chain; (3) reversed over a bidirectional chain is the forward output backwards; (4) a copy taken after k pulls advances independently of the original. Non-trivial: chain depth >= 2, reuse of an exhausted iterator, or a mixed-direction call sequence.",
+    rule: "Pipelines = source x adaptor chain x consumer, run 25 per script (zip / chain also with pair-emitting arguments: a map, an enumerate adaptor; consumers include four peekable interleavings of peek / peek_back with forward and backward consumption). Sources: list, tuple, exclusive / inclusive / descending range, ASCII string, map, and a generator that prints `p<i>` on every pull, each of length 0..5 (exhaustive). Adaptors (numeric parameters 0..3): each, keep, skip, take, take_while, step, chain, zip, enumerate, chunks, windows, flatten, intersperse, cycle (always under a later take), reversed, iter. Consumers: to_list, to_tuple, count, sum, product, min, max, min_max, fold, find, position, any, all, last, consume, a for loop, 3-target unpacking, and next/next_back call sequences. All chains of depth <= 2 are enumerated (quick: x every source x a consumer rotated per pipeline; thorough: x every consumer, plus depth 3 over a reduced source set); deeper chains are proptest-sampled. Oracle: (1) the printed result equals a sequence model written in plain Rust on vectors from the core-library docs (errors for chunks/windows/step 0 and reversed on a non-bidirectional chain); (2) laziness: nothing is pulled before the pipeline is consumed, pulls are p0, p1, ... each once and in order, and the number of pulls is at most the model's minimal demand plus the declared look-ahead of the chain; (3) reversed over a bidirectional chain is the forward output backwards; (4) a copy taken after k pulls advances independently of the original. Zip / chain arguments include pair-emitting iterables (map, enumerate); peekable consumers interleave peek / peek_back with forward and backward consumption. Non-trivial: chain depth >= 2, reuse of an exhausted iterator, or a mixed-direction call sequence.",
     assumptions: &[
         "look-ahead allowance per adaptor: step k: k-1, intersperse / zip / chain / peekable: 1, windows n: n, chunks n: n",
         "error texts are not compared (only that an error is raised)",
